@@ -1,3 +1,4 @@
+\* pinned code shape, HTTP only: every program of 3 start(env)/stop calls + stop (restart, stop twice, start twice, failed start), 1 sender x 2 indications
 SPECIFICATION Spec
 CONSTANTS
   Cfg = {"http"}
@@ -7,7 +8,7 @@ CONSTANTS
   MaxQ = 1
   MaxOps = 3
   InitCbs <- Cbs1
-  AddCbs = {2}
+  AddCbs = {}
   FailCleanup = "code"
   CloseOnCertFail = FALSE
   ClearRobust = FALSE
